@@ -863,3 +863,127 @@ def c08(ctx):
     # sensitivity of the lexer model
     run_lex_mc(ctx, "sens-final", "lex", 2, "", dev=["AsIsFinalSwitch"], expect="LexTotal")
     run_lex_mc(ctx, "sens-regexeof", "lex", 3, "", dev=["RegexIgnoresEof"], expect="LexTotal")
+
+
+# ------------------------------------------------------------- C15, C16
+RULES["C15"] = ("corpus (17 programs covering every grammar production, docs/examples/*.vore, 30 generated scope programs) x "
+                "every gap between significant tokens x 6 fillers {space, newline, tab run, line comment, block comment, block "
+                "comment with blanks and a newline inside}, every closable gap (no separator needed by spec/Lexer.tla), upper-"
+                "case and capitalised spelling of every keyword occurrence; non-trivial = the original program is accepted")
+
+
+def layout_corpus(ctx):
+    progs = list(corpus_programs())
+    ex = os.path.join(vlib.REPO, "docs", "examples")
+    for fn in sorted(os.listdir(ex)):
+        if fn.endswith(".vore") and fn != "email.vore":
+            with open(os.path.join(ex, fn), "rb") as f:
+                progs.append(f.read().decode("latin-1"))
+    return progs
+
+
+@check("C15")
+def c15(ctx):
+    ctx.technique = ("layout as a separate layer: spec/Layout.tla enumerates widen/close/recase edits and TLC checks on the lexer "
+                     "automaton that the significant tokens are preserved; every variant compared with its original on the real "
+                     "code (accept, syntax tree, results)")
+    quick = ctx.tier == "quick"
+    progs = layout_corpus(ctx)
+    # generated programs: a sample of the C01 scope, rendered
+    cases = ctx.gen_cases("C01")
+    step = max(1, len(cases) // (30 if quick else 150))
+    for c in cases[::step]:
+        p = subprocess.run([ctx.get_harness(), "render"], input=json.dumps(c), capture_output=True, text=True)
+        if p.returncode == 0:
+            progs.append(p.stdout.strip())
+    d = ctx.scratch.sub("layout")
+    with open(os.path.join(d, "corpus.ndjson"), "w") as f:
+        for i, pr in enumerate(progs):
+            f.write(json.dumps({"id": i + 1, "src": list(pr.encode("latin-1"))}) + "\n")
+    cfg = ("SPECIFICATION Spec\nCONSTANT CorpusFile = \"corpus.ndjson\"\nCONSTANT LexDev = {}\n"
+           "INVARIANTS LayoutPreservesLex Emit\nCHECK_DEADLOCK FALSE\n")
+    out, st = vlib.run_tlc(d, "Layout", cfg, workers=vlib.NCPU, timeout=900, heap="8g")
+    if not st["ok"]:
+        raise Undecided("model checking of spec/Layout.tla failed:\n" + vlib.tlc_error_excerpt(out, 40))
+    ctx.add_mc("Layout", st, "LayoutPreservesLex for every widen/close/recase edit of every corpus program")
+    docs = vlib.tlc_json_lines(out)
+    ip, rp = os.path.join(d, "variants.ndjson"), os.path.join(d, "report.json")
+    with open(ip, "w") as f:
+        for x in docs:
+            f.write(x + "\n")
+    p = subprocess.run([ctx.get_harness(), "layoutcheck", "-in", ip, "-report", rp,
+                        "-replaydir", os.path.join(vlib.VERIF, "replays", "C15")], capture_output=True, text=True)
+    if p.returncode != 0 or not os.path.exists(rp):
+        raise Undecided("layoutcheck failed: " + p.stderr[-1500:])
+    with open(rp) as f:
+        rep = json.load(f)
+    for k in ("abstained_quirk", "ast_checked", "ast_mismatch", "rejected_by_compile"):
+        rep.setdefault(k, 0)
+    ctx.absorb("C15-layout-variants", rep, allow_rejects=True)
+
+
+FIELDS["C16"] = ["spans", "panic", "cpanic", "reject"]
+RULES["C16"] = ("every spelling (raw, escape letter, \\\\xHH upper and lower case, backslash-other) of every byte 0x01..0x7f in both "
+                "quote styles; \\\\x followed by 0, 1, 2 hex digits and other characters; quotes of the other style; each as "
+                "`find all <literal>` on the denoted text, on near misses of the same length and on the doubled text; plus seeded "
+                "random ASCII strings with mixed spellings up to length 8; non-trivial = the literal must match")
+
+
+def lit_spell(rnd, b, q):
+    opts = ["\\x%02x" % b, "\\x%02X" % b]
+    esc = {10: "n", 9: "t", 13: "r", 7: "a", 8: "b", 12: "f", 11: "v"}
+    if b in esc:
+        opts.append("\\" + esc[b])
+    if b not in (q, 92, 0):
+        opts.append(chr(b))
+    if chr(b) not in "ntrabfvx":
+        opts.append("\\" + chr(b))
+    return rnd.choice(opts)
+
+
+@check("C16")
+def c16(ctx):
+    ctx.technique = ("string-literal sub-automaton of spec/Lexer.tla: TLC checks every spelling denotes its byte and emits the "
+                     "literals; each is compiled from its exact source text and run on the denoted text and near misses")
+    quick = ctx.tier == "quick"
+    d = ctx.scratch.sub("litmc")
+    cfg = ("SPECIFICATION Spec\nCONSTANT MaxLen = 0\nCONSTANT RepSet = \"lex\"\nCONSTANT LexDev = {}\n"
+           "INVARIANTS SpellingsDenote IncompleteHexKeeps\nCHECK_DEADLOCK FALSE\n")
+    out, st = vlib.run_tlc(d, "MC_Lex", cfg, workers=2, timeout=300, heap="2g")
+    if not st["ok"]:
+        raise Undecided("SpellingsDenote failed on spec/Lexer.tla:\n" + vlib.tlc_error_excerpt(out))
+    ctx.add_mc("MC_Lex:spellings", st, "Denote(Spell(b)) = b for every spelling of every byte 1..127, both quote styles; incomplete \\x keeps its followers")
+    d2 = ctx.scratch.sub("litgen")
+    out, st2 = vlib.run_tlc(d2, "LitScope", "CONSTANT OutFile = \"cases.ndjson\"\nCONSTANT LexDev = {}\n", workers=1, timeout=300, heap="2g")
+    cp = os.path.join(d2, "cases.ndjson")
+    if not os.path.exists(cp):
+        raise Undecided("LitScope failed:\n" + vlib.tlc_error_excerpt(out))
+    with open(cp) as f:
+        cases = [json.loads(l) for l in f if l.strip()]
+    # seeded mixed strings
+    import random
+    rnd = random.Random(ctx.seed)
+    base = len(cases)
+    for k in range(400 if quick else 4000):
+        n = rnd.randint(2, 8)
+        bs = [rnd.randint(1, 127) for _ in range(n)]
+        q = rnd.choice([39, 34])
+        body = "".join(lit_spell(rnd, b, q) for b in bs)
+        # a raw hex digit right after an incomplete-looking \x cannot occur: every \x here is complete
+        near = []
+        for _ in range(3):
+            j = rnd.randrange(n)
+            nb = list(bs)
+            nb[j] = bs[j] + 1 if bs[j] < 127 else bs[j] - 1
+            near.append(nb)
+        cases.append({"id": base + k + 1, "cmds": [{"kind": "find", "amt": {"k": "all"},
+                      "body": [{"k": "lit", "s": bs, "neg": False, "ci": False}]}],
+                      "srcbytes": list(("find all " + chr(q) + body + chr(q)).encode("latin-1")),
+                      "litq": q, "litbody": list(body.encode("latin-1")), "texts": [bs] + near + [bs + bs]})
+    exps, st3 = vlib.eval_cases(ctx.scratch, cases, module="EvalLit", extra_const="CONSTANT LexDev = {}")
+    ctx.states += st3["distinct"]
+    ctx.transitions += st3["states"]
+    bad = [json.loads(e)["id"] for e in exps if not json.loads(e).get("litok", True)]
+    if bad:
+        raise Undecided("the lexer specification disagrees with the generator about what literals %s denote" % bad[:5])
+    ctx.replay("C16-literals", cases, FIELDS["C16"], exps=exps, reject_violation=True)
